@@ -68,6 +68,10 @@ func resolveComputedFields(env *Environment, errorSink *validation.ErrorSink) *E
 			}
 
 			if TypesEqual(innerType, t.Type) {
+				if _, targetTypeIsPrimitive := GetKindIfPrimitive(t.Type); !targetTypeIsPrimitive {
+					// a cast of an enum, record, vector, ... to its own type is no conversion at all (the backends convert primitives only)
+					return t.Expression
+				}
 				return t
 			}
 
